@@ -187,6 +187,33 @@ theorem CacheInv_reopen (f : Frag) (_h : CacheInv f.cache f.store.count) :
       h1.congr (fun id => by simp [mix])
     exact h2.of_sub (invalidate_kind _) (invalidate_sub _)
 
+theorem CacheInv_openCacheWith (f : Frag) (ids : List Nat) :
+    CacheInv (f.openCacheWith ids).cache (f.openCacheWith ids).store.count ∧ (f.openCacheWith ids).store = f.store := by
+  unfold Frag.openCacheWith
+  split
+  · rename_i hk; exact ⟨CacheInv.of_none hk, rfl⟩
+  · refine ⟨?_, rfl⟩
+    simp only
+    let c0 : Cache := { Cache.new f.cache.kind f.cache.size with hints := f.cache.hints, bad := f.cache.bad }
+    have h0 : CacheInv c0 (mix [] f.store.count f.store.count) := by
+      intro _ id hne; exact absurd rfl hne
+    obtain ⟨h1, _⟩ := foldl_bulkAdd_inv ids c0 [] f.store.count f.store.count h0
+    have h2 : CacheInv (ids.foldl (fun c r => c.bulkAdd r (f.store.count r)) c0) f.store.count :=
+      h1.congr (fun id => by simp [mix])
+    exact h2.of_sub (invalidate_kind _) (invalidate_sub _)
+
+/-- Fragment hand-over (`WriteTo` on the source, `ReadFrom` on the receiver — any receiver: fresh
+or holding other data, any cache kind and size): afterwards the receiver's cached counts are
+counts of the TRANSFERRED storage. (A source without a cache sends no cache entry; then the
+receiver must not have one either — fragments of one field share the cache type.) -/
+theorem CacheInv_transfer (dst src : Frag) (h : src.cache.kind = .none → dst.cache.kind = .none) :
+    CacheInv (dst.transfer src).cache (dst.transfer src).store.count ∧ (dst.transfer src).store = src.store := by
+  unfold Frag.transfer
+  simp only
+  split
+  · rename_i hk; exact ⟨CacheInv.of_none (h hk), rfl⟩
+  · exact CacheInv_openCacheWith { dst with store := src.store } src.cache.ids
+
 theorem top_cache (f : Frag) (o : TopOpt) (h : CacheInv f.cache f.store.count) :
     CacheInv (f.top o).2.cache (f.top o).2.store.count ∧ (f.top o).2.store = f.store := by
   unfold Frag.top Frag.topBitmapPairs
@@ -231,6 +258,7 @@ inductive Op
   | recalculate
   | reopen
   | top (o : TopOpt)
+  | transfer (src : Frag) (hsrc : src.cache.kind ≠ Kind.none)
   | env (throttled : Bool) (hints : List Hint)
 
 def Frag.step (f : Frag) : Op → Frag
@@ -243,6 +271,7 @@ def Frag.step (f : Frag) : Op → Frag
   | .recalculate => f.recalculateCache
   | .reopen => f.reopen
   | .top o => (f.top o).2
+  | .transfer src _ => f.transfer src
   | .env t hs => { f with cache := { f.cache with throttled := t, hints := hs, bad := false } }
 
 theorem step_kind (f : Frag) (op : Op) : (f.step op).cache.kind = f.cache.kind := by
@@ -256,6 +285,7 @@ theorem step_kind (f : Frag) (op : Op) : (f.step op).cache.kind = f.cache.kind :
   | recalculate => exact recalculate_kind _
   | reopen => exact reopen_kind f
   | top o => exact top_kind f o
+  | transfer src _ => exact transfer_kind f src
   | env t hs => rfl
 
 theorem CacheInv_step (f : Frag) (op : Op) (h : CacheInv f.cache f.store.count) :
@@ -272,6 +302,7 @@ theorem CacheInv_step (f : Frag) (op : Op) (h : CacheInv f.cache f.store.count) 
   | top o =>
     have := top_cache f o h
     exact this.1
+  | transfer src hsrc => exact (CacheInv_transfer f src (fun hk => absurd hk hsrc)).1
   | env t hs => exact h.of_same rfl (fun _ => rfl)
 
 /-- After any history on a fragment opened with any cache kind and size. -/
@@ -562,5 +593,17 @@ theorem C12_threshold_per_shard_witness :
     let f1 := ((Frag.open .ranked 1).setBit 1 0).2
     (topN { ids := [1], minThr := 2 } [f0, f1] [none, none] none).1 = [] ∧
     f0.store.count 1 + f1.store.count 1 = 2 := by decide
+
+/-- The hand-over with the archive entries swapped (cache before data): a fresh receiver recounts the
+transferred ids against its empty storage, so TopN(n) finds nothing and TopN(ids) is only right
+because it falls back to storage; a receiver holding an older copy reports the OLD count. The
+modelled hand-over (data first) gives the true counts. -/
+theorem C12_transfer_order_witness :
+    let src := (Frag.open .ranked 2).importBits [(1, 0), (1, 1), (2, 0)] false
+    let old := (Frag.open .ranked 2).importBits [(1, 5)] false
+    ((Legacy.transferCacheFirst (Frag.open .ranked 2) src).top { n := 5 }).1 = [] ∧
+    ((Legacy.transferCacheFirst old src).top { ids := [1] }).1 = [(1, 1)] ∧
+    (((Frag.open .ranked 2).transfer src).top { n := 5 }).1 = [(1, 2), (2, 1)] ∧
+    ((old.transfer src).top { ids := [1] }).1 = [(1, 2)] := by decide
 
 end PV.C12
